@@ -15,6 +15,14 @@ Two semantics of the same operator AST:
   (`Build.*`, `Except` at construction).
 
 Records and values are one universe (`Val`): a record is whatever flows between operators.
+**Tuple values vs the tuples of the calling convention.**  `Val.tuple` is a Python tuple *value* (a record field, a
+function result).  The tuple of selected inputs (`_get_inputs`) and the tuple of outputs (`_normalize_outputs`) of a
+call are `List Val` — never a `Val` — so a selected value that happens to be a tuple (of length 0, 1, the number of
+keys, …) is ONE element of the argument list and cannot be confused with it.  The two meet at exactly two places,
+both written out below: `identityFn` turns the argument list into a tuple value (`_identity_fn(*x) = x`), and
+`outputsOf` reads a tuple *result* as several outputs.  `Model/PipeFnless.lean` + `C08_fnless_identity` show that for
+operators without a function the two cancel for every value; `C08_result_packing` states the conventions for the
+result of a user function.
 Tree access is the small part of `tree.TreeMapView` the operators use (`getKey` = `__get`,
 `setKey` = `_set_by_path(in_place=False)`); the laws about it are the business of C18.
 -/
@@ -201,7 +209,10 @@ library; the theorems quantify over all of them).  It receives positional and ke
 
 abbrev UFn := Nat → List Val → List (String × Val) → Except ErrKind Val × Nat
 
-/-- `_identity_fn(*x) = x` (tree_fns.py:41): the function of `select` -/
+/-- `_identity_fn(*x) = x` (tree_fns.py:41): the function behind every operator WITHOUT a function (`select`,
+`apply` / `assign` with `fn=None`).  Its result is the ARGUMENT TUPLE as a tuple value — `.tuple args` for every
+number of arguments, also exactly one (`x[0] if len(x) == 1 else x` is the seeded regression C08-m3,
+`identityFnUnwrap` in `Model/PipeFnless.lean`, refuted by `C08_fnless_unwrap_witness`). -/
 def identityFn : UFn := fun s args _ => (.ok (.tuple args), s)
 
 /-! ## Operators -/
@@ -222,7 +233,9 @@ structure Op where
   fnBatch : Nat := 0
   batch : Nat := 0
 
-/-- `_get_inputs` (tree_fns.py:193–199, no masks): `TreeMapView.as_view(inputs)[self.input_keys]` -/
+/-- `_get_inputs` (tree_fns.py:193–199, no masks): `TreeMapView.as_view(inputs)[self.input_keys]` — `input_keys`
+is always a tuple after `__post_init__`, so the result is the tuple of the selected values, one per key (here: a
+`List Val`; a selected value that is itself a tuple is one element of it) -/
 def getInputs (op : Op) (r : Val) : Except ErrKind (List Val) :=
   op.inKeys.mapM (getKey r)
 
@@ -240,8 +253,10 @@ def callFn (op : Op) (s : Nat) (ins : List Val) : Ev Val × Nat :=
 SELF" instead of `IndexError` (finding F9). -/
 def f9Fixed : Bool := true
 
-/-- the outputs of a call: a tuple result is several outputs, anything else is one
-(`if not isinstance(outputs, tuple): outputs = (outputs,)`) -/
+/-- the outputs of a call: a tuple RESULT is several outputs — its elements, whatever they are: an element that is
+itself a tuple is not looked into — anything else is one output (`_normalize_outputs` wraps a single output:
+`if not isinstance(outputs, tuple): outputs = (outputs,)`).  Consequences (`C08_result_packing`): a returned 1-tuple
+`(x,)` is the one output `x`; a returned `()` is no output at all. -/
 def outputsOf (v : Val) : List Val :=
   match v with
   | .tuple xs => xs
@@ -279,7 +294,10 @@ def setZip (tree : Val) : List OutKey → List Val → Except ErrKind Val
   | k :: ks, o :: os => do let t ← setOne tree k o; setZip t ks os
   | _, _ => .error .value                       -- zip(strict=True)
 
-/-- `_get_outputs(outputs, inputs)` (tree_fns.py:215–228) -/
+/-- `_get_outputs(outputs, inputs)` (tree_fns.py:215–228): ONE output key and several outputs — the key receives the
+whole tuple of outputs (a function returning a tuple with one output key stores the tuple); otherwise
+`zip(output_keys, outputs, strict=True)`: with n keys a tuple result of n elements is unzipped, output i under key i;
+a different number of outputs raises `ValueError` -/
 def getOutputs (op : Op) (base : Val) (outs : List Val) : Except ErrKind Val :=
   match op.outKeys with
   | [k] =>
